@@ -29,9 +29,10 @@ type c03Weights struct {
 	ConvertCoin, ConvertERC20, Transfer, Burn, BurnCoins, BankSend, Toggle, SendEnabled, Params int
 	Repair float64 // chance per step that a switched-off switch is switched on again
 	Receipt int    // one Ethereum transaction with several logs (needs a world with c03AddContracts)
+	Lookalike int  // MsgConvertCoin with a coin named like the pair's contract address (needs c03MintLookalikes)
 }
 
-var c03DefaultWeights = c03Weights{ConvertCoin: 18, ConvertERC20: 18, Transfer: 20, Burn: 6, BurnCoins: 5, BankSend: 5, Toggle: 5, SendEnabled: 4, Params: 7, Repair: 0.3, Receipt: 30}
+var c03DefaultWeights = c03Weights{ConvertCoin: 18, ConvertERC20: 18, Transfer: 20, Burn: 6, BurnCoins: 5, BankSend: 5, Toggle: 5, SendEnabled: 4, Params: 7, Repair: 0.3, Receipt: 30, Lookalike: 9}
 
 // c03Prelude puts value on both sides of every pair so that every route has something to
 // work on: each holder converts part of its coins (native pairs) / tokens (external pairs).
@@ -105,7 +106,7 @@ func (w *c03World) c03GenOp(e *Env, wt c03Weights, parties []int, cur c03Obs) c0
 	if !cur.Pairs[pair].SendOK && e.Chance(wt.Repair) {
 		return c03Op{Kind: "send_enabled", Pair: pair, B1: true}
 	}
-	total := wt.ConvertCoin + wt.ConvertERC20 + wt.Transfer + wt.Burn + wt.BurnCoins + wt.BankSend + wt.Toggle + wt.SendEnabled + wt.Params + wt.Receipt
+	total := wt.ConvertCoin + wt.ConvertERC20 + wt.Transfer + wt.Burn + wt.BurnCoins + wt.BankSend + wt.Toggle + wt.SendEnabled + wt.Params + wt.Receipt + wt.Lookalike
 	r := e.Pick(total)
 	from := e.Pick(w.NHold)
 	other := (from + 1 + e.Pick(w.NHold-1)) % w.NHold
@@ -203,8 +204,10 @@ func (w *c03World) c03GenOp(e *Env, wt c03Weights, parties []int, cur c03Obs) c0
 			return c03Op{Kind: "params", B1: true, B2: true}
 		}
 		return c03Op{Kind: "params", B1: e.Chance(0.5), B2: e.Chance(0.5)}
-	default:
+	case r < wt.ConvertCoin+wt.ConvertERC20+wt.Transfer+wt.Burn+wt.BurnCoins+wt.BankSend+wt.Toggle+wt.SendEnabled+wt.Params+wt.Receipt || len(w.LookPairs) == 0:
 		return w.c03GenReceipt(e, parties, cur)
+	default:
+		return w.c03GenLookalike(e, receiver)
 	}
 }
 
@@ -451,16 +454,20 @@ func c03Worlds() []*c03World {
 	units := []*big.Int{big.NewInt(1), new(big.Int).Exp(big.NewInt(10), big.NewInt(18), nil)}
 	var ws []*c03World
 	for i, u := range units {
-		w := c03NewWorld(i, 3, 2, 2, u)
+		// one pair of each kind as they come, one more of each kind whose contract address
+		// starts with a hex letter (its 40-digit spelling is then a valid coin denomination)
+		w := c03NewWorld(i, 3, 1, 1, u)
+		w.c03AddQualifyingPairs(u)
 		w.c03Prelude(u)
 		w.c03AddContracts(u)
+		w.c03MintLookalikes(u)
 		ws = append(ws, w)
 	}
 	return ws
 }
 
 func c03Run(e *Env) {
-	e.Stats.Rule = "case = random history of 20-40 operations (plus one scripted boundary history per pair and world: every bound of the model just met / just missed, every gate closed once, the hook with each switch off, blocked and zero-address receivers, and scripted multi-log receipts: a balance spent in two logs exactly / one too many, zero amount first, several holders, the contract account sending twice and four times in one real transaction, approval naming the module, logs of an unregistered contract, a blocked sender in the middle, two registered contracts in one receipt, several logs with each switch off) on the real application with 2 module-owned pairs (RegisterCoin) and 2 external pairs (shipped ERC20MinterBurnerDecimals deployed by a holder, RegisterERC20), 3 holders, a contract account (hand-assembled multicall vault deployed by a real transaction, holding tokens of every pair and an allowance of every holder), an unregistered copy of the ERC-20, the erc20 module account and 2 further module accounts; operations: ConvertCoin / ConvertERC20 through the erc20 message server, ERC-20 transfer / burn / burnCoins as signed Ethereum transactions through EvmKeeper.EthereumTx (post-tx hooks run), Ethereum transactions with 1-5 calls and as many or more logs in ONE receipt (about a fifth of all operations; 40% as one signed transaction to the vault which calls transfer / transferFrom / approve on registered and unregistered contracts - sender of the tokens = the vault, an account with code, or a holder; 60% at keeper level: every call executed for real as its sender - holder, vault, another module account i.e. a blocked address, on the unregistered contract also the erc20 module address itself - and one receipt with all logs handed to Erc20Keeper.Hooks().PostTxProcessing; destinations module address / holder / vault / self / other module account / zero address; amounts up to half the running balance, exactly the rest, 0, 1, one too many, free; the same sender repeated; a quarter of the calls on another pair than the receipt's main pair), bank MsgSend, ToggleTokenConversion, bank send-enabled flips, MsgUpdateParams; amounts 1..balance, exactly balance, balance+-1, 0, free magnitudes; receivers self / third party / module accounts / contract account; projection after every operation (after every receipt as a whole): bank supply, totalSupply(), bank balance and balanceOf() of every party for every pair, flags, parameters, result class; non-trivial = at least one successful conversion or hook conversion; distinct by hash of (operations, result classes)"
+	e.Stats.Rule = "case = random history of 20-40 operations (plus one scripted boundary history per pair and world: every bound of the model just met / just missed, every gate closed once, the hook with each switch off, blocked and zero-address receivers, and scripted multi-log receipts: a balance spent in two logs exactly / one too many, zero amount first, several holders, the contract account sending twice and four times in one real transaction, approval naming the module, logs of an unregistered contract, a blocked sender in the middle, two registered contracts in one receipt, several logs with each switch off) on the real application with 2 module-owned pairs (RegisterCoin) and 2 external pairs (shipped ERC20MinterBurnerDecimals deployed by a holder, RegisterERC20), 3 holders, a contract account (hand-assembled multicall vault deployed by a real transaction, holding tokens of every pair and an allowance of every holder), an unregistered copy of the ERC-20, the erc20 module account and 2 further module accounts; one pair of each kind has a contract address starting with a hex letter (module nonce advanced / contracts deployed until it does) and holders own coins whose denomination is that address's 40 hex digits in lower case (holders 1, 2) and in mixed case (holders 0, 2); operations: ConvertCoin / ConvertERC20 through the erc20 message server, MsgConvertCoin with such a look-alike coin (GetTokenPairID resolves its name to the pair; must be refused; amounts around the owned balance, all receivers; also in the boundary stream), ERC-20 transfer / burn / burnCoins as signed Ethereum transactions through EvmKeeper.EthereumTx (post-tx hooks run), Ethereum transactions with 1-5 calls and as many or more logs in ONE receipt (about a fifth of all operations; 40% as one signed transaction to the vault which calls transfer / transferFrom / approve on registered and unregistered contracts - sender of the tokens = the vault, an account with code, or a holder; 60% at keeper level: every call executed for real as its sender - holder, vault, another module account i.e. a blocked address, on the unregistered contract also the erc20 module address itself - and one receipt with all logs handed to Erc20Keeper.Hooks().PostTxProcessing; destinations module address / holder / vault / self / other module account / zero address; amounts up to half the running balance, exactly the rest, 0, 1, one too many, free; the same sender repeated; a quarter of the calls on another pair than the receipt's main pair), bank MsgSend, ToggleTokenConversion, bank send-enabled flips, MsgUpdateParams; amounts 1..balance, exactly balance, balance+-1, 0, free magnitudes; receivers self / third party / module accounts / contract account; projection after every operation (after every receipt as a whole): bank supply, totalSupply(), bank balance and balanceOf() of every party for every pair, flags, parameters, result class; non-trivial = at least one successful conversion or hook conversion; distinct by hash of (operations, result classes)"
 	ws := c03Worlds()
 	hdr := c03Header
 	for _, w := range ws {
@@ -482,6 +489,7 @@ func c03Run(e *Env) {
 			for pair := range w.Pairs {
 				kase := c03Case{World: wi, Parties: w.c03PickParties(e, 1)}
 				script := append(w.c03BoundaryScript(pair, kase.Parties), w.c03ReceiptScript(pair, kase.Parties)...)
+				script = append(script, w.c03LookalikeScript(pair)...)
 				i := 0
 				term, sig := w.c03Execute(e, &kase, len(script), func(cur c03Obs) c03Op { o := script[i](cur); i++; return o })
 				e.AddCase("check_case_c03", term, kase)
@@ -508,6 +516,14 @@ func c03Run(e *Env) {
 		c03Nontrivial(e, sig)
 		e.Stats.Count("stream:random-history")
 		e.Stats.Sample(kase)
+	}
+	for _, w := range ws {
+		for _, n := range w.Notes {
+			e.Stats.Notes = append(e.Stats.Notes, fmt.Sprintf("world %d: %s", w.ID, n))
+		}
+		for _, p := range w.LookPairs {
+			e.Stats.Notes = append(e.Stats.Notes, fmt.Sprintf("world %d pair %d (external=%v): look-alike denominations %s / %s", w.ID, p, w.Pairs[p].External, w.LookLower[p], w.LookMixed[p]))
+		}
 	}
 	d := e.Stats.Distribution
 	pct := func(a, b int) string {
